@@ -469,7 +469,7 @@ def prove_zero(engine, goal_terms, blowup=10 ** 8):
         return False
     for g in goal_terms:
         try:
-            gp = red.tr.poly(g)
+            gp = _clear(red.tr.poly(g))      # G x (monomial of non-zero symbols): same zero set on the path
             rem, quot = red.reduce(gp)
         except Unsupported:
             return False
